@@ -141,6 +141,13 @@ def ident_graph(obj, _seen=None, _path='$'):
 
 def module_state():
     """Fingerprint of the library's module-level mutable state (C13)."""
+    import warnings
+    with warnings.catch_warnings():
+        warnings.simplefilter('ignore')     # copying itertools objects is deprecated from 3.14 on
+        return _module_state()
+
+
+def _module_state():
     import copy
     import itertools
     from regions.core.registry import RegionsRegistry
@@ -158,7 +165,7 @@ def module_state():
         else:
             # an iterator: probe a *copy* without consuming the shared object
             try:
-                tmpl[k] = ['iter'] + list(itertools.islice(copy.copy(v), 6))
+                tmpl[k] = ['iter'] + list(itertools.islice(copy.deepcopy(v), 6))
             except Exception as exc:  # pragma: no cover
                 tmpl[k] = ['iter-uncopyable', repr(exc)]
     st['ds9_params_template'] = tmpl
@@ -171,7 +178,7 @@ def module_state():
         if isinstance(v, list):
             ls[k] = list(v)
         else:
-            ls[k] = ['iter'] + list(itertools.islice(copy.copy(v), 4))
+            ls[k] = ['iter'] + list(itertools.islice(copy.deepcopy(v), 4))
     st['crtf_language_spec'] = ls
     st['crtf_coordsys_mapping_n'] = len(cread._CRTFRegionParser.coordsys_mapping)
     st['crtf_coordsys_special'] = {k: cread._CRTFRegionParser.coordsys_mapping.get(k) for k in ('j2000', 'b1950', 'supergal', 'ecliptic', 'icrs', 'galactic')}
